@@ -142,6 +142,39 @@ def act(a, c, st, case):
                 st["success_seen"].append((mech, cred, user))
                 st["authed_as"] = user
                 st["restart_ok"] = True
+    elif kind == "burst":
+        # a client that does not wait: authentication element, resource binding and stanzas leave in ONE write, so the server handles the
+        # stanzas while the password checker has not answered yet (its reply is asynchronous)
+        cred, tagname = a[1], a[2]
+        user = "victim" if cred == "victim-wrong" else "mallory"
+        pw = {"right": CREDS["mallory"], "wrong": "not-the-password", "victim-wrong": "guess", "empty-pw": ""}[cred]
+        approved = user if cred == "right" else None
+        st["n"] += 1
+        rid = "bind-%d-%d" % (case, st["n"])
+        m1, m2 = "atk-%d-%d-m" % (case, st["n"]), "atk-%d-%d-i" % (case, st["n"])
+        if tagname == "auth":
+            x = "<auth xmlns='%s' mechanism='PLAIN'>%s</auth>" % (NS_SASL, plain(user, pw))
+        else:
+            x = "<authenticate xmlns='%s' mechanism='PLAIN'><initial-response>%s</initial-response></authenticate>" % (NS_SASL2, plain(user, pw))
+        x += "<iq type='set' id='%s'><bind xmlns='urn:ietf:params:xml:ns:xmpp-bind'><resource>evil</resource></bind></iq>" % rid
+        x += "<message to='%s' id='%s' type='chat'><body>%s</body></message>" % (VICTIM_FULL, m1, m1)
+        x += "<iq to='%s' id='%s' type='get'><query xmlns='jabber:iq:version' marker='%s'/></iq>" % (VICTIM_FULL, m2, m2)
+        was = st["authed_as"]
+        for mk_, tg_ in ((m1, "message"), (m2, "iq")):
+            st["markers"][mk_] = {"authed_as": was or approved, "bound": st["bound"], "from_class": "absent", "to_class": "victim-full", "tag": tg_, "in_one_write_with": "%s PLAIN %s" % (tagname, cred)}
+        c.send(x)
+        st["bursts"] = st.get("bursts", 0) + 1
+        n_before = len(c.elements)
+        c.drain(0.12 if st["opened"] and not st.get("broken") else 0.02)
+        for el in c.elements[n_before:]:
+            if local(el) == "success" and not was:
+                st["success_seen"].append(("PLAIN", cred, user))
+                st["authed_as"] = user
+                st["restart_ok"] = True
+            if local(el) == "iq" and el.get("id") == rid:
+                st["iq_replies"].append(("bind", rid, el.get("type"), was or approved))
+                if el.get("type") == "result":
+                    st["bound"] = True
     elif kind == "abort":
         c.send("<abort xmlns='%s'/>" % NS_SASL)
         c.drain(0.03)
@@ -265,6 +298,7 @@ def run_case(srv, victim, case, word, viol, stats):
         # (an authorization identity next to correct credentials is ignored by the server: the connection is mallory's)
         if not ((mech in ("PLAIN", "DIGEST-MD5") and cred in ("right", "authzid-victim")) or mech == "ANONYMOUS"):
             viol.append(("authentication-succeeds %s %s" % (mech, cred), "the server reported SASL success for credentials the password checker cannot have approved (%s, %s)" % (mech, cred), w))
+    stats["pipelined_logins"] += st.get("bursts", 0)
     if st["authed_as"] is None:
         stats["unauthenticated_cases"] += 1
     return None
@@ -278,6 +312,7 @@ def alphabet(full):
               ("auth", "ANONYMOUS", "x"), ("auth", "X-UNKNOWN", "x"), ("auth", "PLAIN", "right", "sasl2"), ("auth", "PLAIN", "wrong", "sasl2"), ("abort",), ("response",), ("session",),
               ("stanza", "message", "third", "victim-full"), ("stanza", "message", "own", "victim-full"), ("stanza", "message", "empty", "victim-bare"), ("stanza", "iq", "victim", "victim-full"),
               ("stanza", "message", "victim-bare", "absent"), ("stanza", "presence", "victim", "domain"),
+              ("burst", "wrong", "auth"), ("burst", "victim-wrong", "auth"), ("burst", "right", "auth"), ("burst", "wrong", "authenticate"), ("burst", "empty-pw", "auth"),
               ("stanza", "smuggle", "absent", "victim-full", "ns"), ("stanza", "smuggle", "absent", "victim-full", "attr"), ("stanza", "smuggle", "own", "victim-bare", "text"), ("stanza", "smuggle", "absent", "victim-full", "prefix-ns")]
     return A
 
@@ -352,6 +387,11 @@ def main(tier, replay=None):
             for to in ("victim-full", "victim-bare"):
                 for k in range(1, 4):
                     words.append([("open", "right"), ("auth", "PLAIN", "right"), ("open", "right"), ("bind",)] + [("stanza", "smuggle", frm, to, where)] * k)
+    # pipelined logins: the burst right after the stream header, after a failed attempt, twice in a row, after a completed login
+    for b in [x for x in full if x[0] == "burst"]:
+        for pre in ([], [("auth", "PLAIN", "wrong")], [b], [("auth", "PLAIN", "right"), ("open", "right")]):
+            for post in ([], [("bind",)], [("stanza", "message", "absent", "victim-full")], [("open", "right"), ("bind",), ("stanza", "message", "victim", "victim-full")]):
+                words.append([("open", "right")] + pre + [b] + post)
     r.shuffle(words)
     W = vf.NPROC
     with ProcessPoolExecutor(max_workers=W) as pool:
@@ -366,9 +406,9 @@ def main(tier, replay=None):
     cov = {"evaluations": stats["cases"], "distinct_nontrivial": stats["unauthenticated_cases"] + stats["stamped_ok"],
            "rule": "raw TCP client scripts against the real QXmppServer with a second, properly authenticated client online as victim: every word of length <= %d over an 8-letter alphabet {open stream, PLAIN right/wrong, bind, "
                    "message/presence/iq with from absent or victim's, to victim/domain}, every pair over a 27-letter alphabet (wrong domain, malformed / prefix / authzid credentials, DIGEST-MD5 right/wrong, ANONYMOUS, unknown mechanism, "
-                   "SASL2 authenticate, abort, response without auth, session, from third/own/empty) after a stream open, and random words up to length 12; unique markers tie each delivery at the victim to the send event and the "
+                   "SASL2 authenticate, abort, response without auth, session, from third/own/empty, and pipelined logins - authentication element, bind, message and iq in one write, so that the stanzas are handled while the password checker's asynchronous answer is still pending) after a stream open, and random words up to length 12; unique markers tie each delivery at the victim to the send event and the "
                    "sender's authentication state at that moment; the victim connection is fenced with a message to itself" % (depth, ),
            "observed": dict(stats), "samples": [{"attacker_script": [list(a) for a in words[0]]}]}
-    floors = {"cases": stats["cases"] > 1000, "stamped_ok": stats["stamped_ok"] > 0, "unauthenticated": stats["unauthenticated_cases"] > 100, "auth_success": stats["auth_success"] > 0, "carrier_delivered": stats["carrier_of_hidden_stanza_delivered"] > 0}
+    floors = {"pipelined_logins": stats["pipelined_logins"] > 50, "cases": stats["cases"] > 1000, "stamped_ok": stats["stamped_ok"] > 0, "unauthenticated": stats["unauthenticated_cases"] > 100, "auth_success": stats["auth_success"] > 0, "carrier_delivered": stats["carrier_of_hidden_stanza_delivered"] > 0}
     V.finish(cov, "exploration", ["the server has no bundled extensions loaded (no roster/privacy logic): routing is by destination only", "server-to-server (dialback) paths are not exercised",
                                   "timing: attacker replies are awaited for at most 0.15-0.5 s; deliveries are fenced logically on the victim's connection"], floors)
